@@ -5,9 +5,9 @@
    reason, messages handled synchronously / asynchronously / raising, ping, pong, protocol
    violations), peer EOF, connection reset, timer expiry, completion of an asynchronous
    on_message, completion of a coroutine open() (server, c_aopen), write_message. *)
-From Coq Require Import List NArith Bool.
+From Coq Require Import List NArith ZArith Bool.
 Import ListNotations.
-From TV Require Import Lib.Obs C16.Model C16.Spec C16.Run C16.Inv3 C16.Sound C16.Proofs.
+From TV Require Import Lib.Obs C16.Model C16.Spec C16.Run C16.Inv3 C16.Sound C16.Proofs Gen.C16_src Gen.C16_equiv.
 
 (* The whole property as the online monitor of Spec.v: for every role, ping configuration and
    event list the model's trace is accepted (at most one Close frame, no data frame after it,
@@ -28,7 +28,8 @@ Print Assumptions C16_checker_accepts_model.
 Theorem C16_accepted_trace_close_once_then_no_data : forall evs t l1 c r l2,
   check_trace evs t = true ->
   items_of t = l1 ++ ISent (SClose c r) :: l2 ->
-  existsb is_sclose l1 = false /\ existsb is_sclose l2 = false /\ existsb is_data l2 = false.
+  existsb is_sclose l1 = false /\ existsb is_sclose l2 = false /\ existsb is_data l2 = false
+  /\ existsb is_sping l2 = false.
 Proof. exact accepted_close_once_then_silent. Qed.
 Print Assumptions C16_accepted_trace_close_once_then_no_data.
 
@@ -53,10 +54,11 @@ Print Assumptions C16_accepted_trace_on_close_once_with_peer_code.
 
 (* The same, and the remaining clauses, directly about the model, for all event lists. *)
 
-(* each side sends at most one Close frame and no data frame after it *)
+(* each side sends at most one Close frame and no data frame (and no ping) after it *)
 Theorem C16_at_most_one_close_frame_and_no_data_after : forall c evs l1 cc r l2,
   items_of (run c evs) = l1 ++ ISent (SClose cc r) :: l2 ->
-  existsb is_sclose l1 = false /\ existsb is_sclose l2 = false /\ existsb is_data l2 = false.
+  existsb is_sclose l1 = false /\ existsb is_sclose l2 = false /\ existsb is_data l2 = false
+  /\ existsb is_sping l2 = false.
 Proof. exact model_close_once_then_silent. Qed.
 Print Assumptions C16_at_most_one_close_frame_and_no_data_after.
 
@@ -116,6 +118,15 @@ Theorem C16_close_notification_fires_when_pending_open_or_on_message_completes :
 Proof. exact model_reported_when_pending_callback_completes. Qed.
 Print Assumptions C16_close_notification_fires_when_pending_open_or_on_message_completes.
 
+(* an asynchronous on_message whose Future fails (the coroutine raised after an await) is treated
+   like a synchronous on_message that raises: abort, and the close notification is delivered *)
+Theorem C16_failed_async_on_message_aborts_and_notifies : forall c evs,
+  s_loop (fst (final c evs)) = LBlocked ->
+  s_sc (fst (final c (evs ++ [EMsgFail]))) = true
+  /\ existsb is_onclose (items_of (run c (evs ++ [EMsgFail]))) = true.
+Proof. exact model_failed_async_on_message_aborts_and_notifies. Qed.
+Print Assumptions C16_failed_async_on_message_aborts_and_notifies.
+
 (* writes after closing fail with WebSocketClosedError and put nothing on the wire *)
 Theorem C16_write_after_closing_raises : forall c evs,
   closing_obs evs (run c evs) = true ->
@@ -132,8 +143,68 @@ Theorem C16_write_before_closing_succeeds : forall c evs,
 Proof. exact model_write_before_closing_succeeds. Qed.
 Print Assumptions C16_write_before_closing_succeeds.
 
+(* every call of the application, in every reachable state: how many times write_message returned /
+   raised, data frames written, ping() returned / raised, close() raised -- as a function of the event
+   and of whether the endpoint was closing (as the application can observe it) before the call.  In
+   particular ping() raises WebSocketClosedError exactly when closing, close() raises exactly when
+   it is not closing and its arguments cannot be encoded, and no other event writes a data frame. *)
+Theorem C16_application_calls_behave_as_specified : forall c evs e,
+  counts (snd (step c e (final c evs))) = expected_b e (closing_obs evs (run c evs)).
+Proof. exact model_api_calls. Qed.
+Print Assumptions C16_application_calls_behave_as_specified.
+
+Theorem C16_ping_raises_exactly_when_closing : forall c evs,
+  let its := snd (step c EAppPing (final c evs)) in
+  if closing_obs evs (run c evs)
+  then cnt is_pok its = 0%nat /\ cnt is_perr its = 1%nat
+  else cnt is_pok its = 1%nat /\ cnt is_perr its = 0%nat.
+Proof. exact model_ping_raises_iff_closing. Qed.
+Print Assumptions C16_ping_raises_exactly_when_closing.
+
+(* close(code, reason) with code > 65535 or a reason longer than 123 UTF-8 bytes *)
+Theorem C16_close_raises_exactly_when_frame_unencodable : forall c evs code reason,
+  cnt is_cerr (snd (step c (ELocalClose code reason) (final c evs)))
+  = if negb (closing_obs evs (run c evs)) && negb (close_args_ok code reason) then 1%nat else 0%nat.
+Proof. exact model_close_raises_iff_unencodable. Qed.
+Print Assumptions C16_close_raises_exactly_when_frame_unencodable.
+
+Theorem C16_close_that_raises_changes_nothing : forall c code reason m,
+  In ICloseErr (snd (act c (ELocalClose code reason) m)) -> fst (act c (ELocalClose code reason) m) = m.
+Proof. exact model_close_that_raises_changes_nothing. Qed.
+Print Assumptions C16_close_that_raises_changes_nothing.
+
 (* ping timeout and closing timeout never race: one timer at a time *)
 Theorem C16_closing_timer_only_after_ping_cancelled : forall c evs,
   s_wait (fst (final c evs)) = true -> s_ping (fst (final c evs)) = PNone.
 Proof. exact model_one_timer. Qed.
 Print Assumptions C16_closing_timer_only_after_ping_cancelled.
+
+(* The model's decisions are the ones read from tornado/websocket.py on this run by
+   translators/c16_src.py (Gen/C16_src.v): is_closing, the WebSocketClosedError guards of
+   write_message / ping() on handler and client, ping_interval / ping_timeout (with clamping),
+   the ping-timeout test and sleep time of periodic_ping, and close()'s default code. *)
+Theorem C16_model_decisions_are_the_source_decisions :
+  (forall s, is_closing s = src_is_closing (s_sc s) (s_ct s) (s_st s))
+  /\ (forall r s, write r s = if guard_write_of r (negb (s_hconn s)) (src_is_closing (s_sc s) (s_ct s) (s_st s))
+                              then (s, [IWriteErr]) else (s, [ISent SData; IWriteOk]))
+  /\ (forall r s, app_ping s = if guard_ping_of r (negb (s_hconn s)) (src_is_closing (s_sc s) (s_ct s) (s_st s))
+                               then (s, [IPingErr]) else (s, [ISent SPing; IPingOk]))
+  /\ (forall c, ping_interval c = src_ping_interval (p_interval_of c))
+  /\ (forall c, ping_timeout c = src_ping_timeout (ping_interval c) (p_timeout_of c))
+  /\ (forall t pong, (t =? 0)%N = false -> src_ping_timed_out t pong = negb pong)
+  /\ (forall l i t : N,
+        (0 <? src_ping_sleep_time (Z.of_N l) (Z.of_N i) (Z.of_N l + Z.of_N t))%Z = (t <? i)%N)
+  /\ (forall code (reason : option (list N)),
+        match code, reason with None, Some _ => Some 1000%N | _, _ => code end
+        = if src_close_default_code code (option_map (fun _ => 0%N) reason) then Some 1000%N else code).
+Proof.
+  repeat split.
+  - exact src_write_guard_eq.
+  - exact src_ping_guard_eq.
+  - exact src_ping_interval_eq.
+  - exact src_ping_timeout_eq.
+  - exact src_ping_timed_out_eq.
+  - exact src_ping_sleep_time_eq.
+  - exact src_close_default_code_eq.
+Qed.
+Print Assumptions C16_model_decisions_are_the_source_decisions.
